@@ -941,6 +941,213 @@ def w_two_buffers(task):
     return out
 
 
+# --------------------------------------------------------------------------- leg D3: several buffers, one port
+DIR_JOIN = {frozenset(["i"]): "input", frozenset(["o"]): "output"}       # anything else that is used: inout
+
+
+def dir_designs(w):
+    """every partition of a width-w port into 1..3 contiguous slices x every assignment of
+    {unused '-', i, o, io} to the slices (at least one slice used)"""
+    out = []
+    for k in (1, 2, 3):
+        for cuts in itertools.combinations(range(1, w), k - 1):
+            edges = (0,) + cuts + (w,)
+            for dirs in itertools.product(("-", "i", "o", "io"), repeat=k):
+                if all(d == "-" for d in dirs):
+                    continue
+                out.append([[edges[x], edges[x + 1], dirs[x]] for x in range(k)])
+    return out
+
+
+def _dirs_build(case):
+    """-> (module, top-level port signals, per-slice records, IOPorts by half, clock domain or None)"""
+    from amaranth.hdl import Module, ClockDomain, IOPort, Signal
+    from amaranth.lib import io
+    kind, w, mask, parts, cls = case["kind"], case["w"], case["mask"], case["parts"], case["cls"]
+    inv = tuple(bool((mask >> j) & 1) for j in range(w))
+    if kind == "se":
+        iop = {"io": IOPort(w, name="pd")}
+        port = io.SingleEndedPort(iop["io"], invert=inv)
+    else:
+        iop = {"p": IOPort(w, name="pdp"), "n": IOPort(w, name="pdn")}
+        port = io.DifferentialPort(iop["p"], iop["n"], invert=inv)
+    m = Module()
+    cd = None
+    if cls == "FFBuffer":
+        m.domains.sync = cd = ClockDomain("sync")
+    recs, ports = [], []
+    for x, (a, e, d) in enumerate(parts):
+        if d == "-":
+            continue
+        buf = getattr(io, cls)(d, port[a:e])
+        m.submodules[f"s{x}"] = buf
+        rec = {"a": a, "e": e, "dir": d, "x": x}
+        # uniquely named top-level signals, so that the RTLIL port wires can be addressed by name
+        if d != "o":
+            rec["i"] = Signal(e - a, name=f"s{x}_i")
+            m.d.comb += rec["i"].eq(buf.i)
+            ports.append(rec["i"])
+        if d != "i":
+            rec["o"] = Signal(e - a, name=f"s{x}_o")
+            rec["oe"] = Signal(1, name=f"s{x}_oe")
+            m.d.comb += [buf.o.eq(rec["o"]), buf.oe.eq(rec["oe"])]
+            ports += [rec["o"], rec["oe"]]
+        recs.append(rec)
+    if cd is not None:
+        ports += [cd.clk, cd.rst]
+    return m, ports, recs, iop, cd
+
+
+def _dirs_case(case, out):
+    from amaranth.hdl._ir import Fragment, build_netlist
+    from amaranth.back import rtlil
+    from ..ref.c18_netlist import NirEval, RtlilEval, parse_rtlil
+    kind, w, mask, parts, cls = case["kind"], case["w"], case["mask"], case["parts"], case["cls"]
+    pstr = "+".join(f"[{a}:{e}]={d}" for a, e, d in parts)
+    tag = f"{cls} per slice {pstr} of one {kind} port (width {w}, invert mask {mask:0{w}b})"
+    sigbase = f"{kind}:w{w}:m{mask:0{w}b}:{pstr}:{cls}"
+    out["cov"]["evaluations"] += 1
+    _inc(out, "dirs_designs")
+    used = [d for _a, _e, d in parts if d != "-"]
+    # expected declared direction of each half: the join of the directions of the buffers using any of its bits
+    true_half = "io" if kind == "se" else "p"
+    want = {true_half: DIR_JOIN.get(frozenset(used), "inout")}
+    if kind == "diff":
+        want["n"] = "output" if any(d != "i" for d in used) else None      # input buffers do not touch the complement half
+    if len(set(used)) > 1 and "io" not in used:
+        _inc(out, "dirs_mixed_i_o_designs")
+        out["cov"]["distinct_nontrivial"] += 1
+    m, ports, recs, iop, cd = _dirs_build(case)
+    nl = build_netlist(Fragment.get(m, None), ports=ports, name="top")
+    names = {h: p.name for h, p in iop.items()}
+    top_io = {name: d.value for name, (_v, d) in nl.modules[0].io_ports.items()}
+    for h, exp in want.items():
+        got = top_io.get(names[h])
+        if exp is None:
+            continue            # a half no buffer uses: nothing is claimed about it
+        if got != exp:
+            _viol(out, f"net:port-dir:nir:{sigbase}:{names[h]}", f"{tag}: the netlist declares top-level I/O port {names[h]} as {got}, "
+                  f"the buffers using its bits need {exp}", case)      # no return: the RTLIL text is judged on its own
+    ev = NirEval(nl)
+    pidx = {id(p): k for k, p in enumerate(nl.io_ports)}
+    uses = ev.uses()
+    for rec in recs:
+        for j in range(rec["a"], rec["e"]):
+            for h in iop:
+                u = uses.get((pidx.get(id(iop[h])), j), [])
+                exp_n = 0 if (h == "n" and rec["dir"] == "i") else 1
+                exp_d = "output" if h == "n" else NIR_DIR[rec["dir"]]
+                if len(u) != exp_n or (u and u[0][1] != exp_d):
+                    _viol(out, f"net:port-dir:uses:{sigbase}:{names[h]}[{j}]", f"{tag}: port {names[h]} bit {j} is used by {u}, want {exp_n} x {exp_d}", case)
+                    return
+    m2, ports2, recs2, iop2, cd2 = _dirs_build(case)
+    text, _n = rtlil.convert_fragment(Fragment.get(m2, None), ports=ports2, name="top", emit_src=False)
+    _inc(out, "dirs_rtlil_texts")
+    try:
+        mods = parse_rtlil(text)
+        rv = RtlilEval(mods, "\\top")
+    except Exception as e:      # noqa: BLE001
+        _viol(out, f"net:rtlil-malformed:{type(e).__name__}:{sigbase}", f"{tag}: the emitted RTLIL cannot be interpreted: {type(e).__name__}: {e}", case)
+        return
+    for h, exp in want.items():
+        if exp is None:
+            continue
+        got = mods["\\top"].wires.get("\\" + names[h], (None, None))[1]
+        if got != exp:
+            _viol(out, f"net:port-dir:rtlil:{sigbase}:{names[h]}", f"{tag}: the RTLIL declares top-level wire \\{names[h]} as {got}, "
+                  f"the buffers using its bits need {exp}", case)
+            return
+    for which, e in (("nir", ev), ("rtlil", rv)):
+        try:
+            bad = _dirs_semantics(case, recs, iop, cd, e, pidx, which, out)
+        except Exception as ex:      # noqa: BLE001
+            if which == "nir":
+                raise
+            bad = ("malformed", f"evaluation fails with {type(ex).__name__}: {ex}")
+        if bad:
+            _viol(out, f"net:multi:{which}:{sigbase}:{bad[0]}", f"{tag}: {which}: {bad[1]}", case)
+            return
+
+
+def _dirs_semantics(case, recs, iop, cd, e, pidx, which, out):
+    """all valuations of every buffer's (o, oe) and of every sensed pad bit; FFBuffer: register models in lock step"""
+    kind, w, mask, cls = case["kind"], case["w"], case["mask"], case["cls"]
+    ff = cls == "FFBuffer"
+    nir = which == "nir"
+    true_half = "io" if kind == "se" else "p"
+    fields = []          # (record index, member, width)
+    for k, rec in enumerate(recs):
+        n = rec["e"] - rec["a"]
+        if rec["dir"] != "i":
+            fields += [(k, "o", n), (k, "oe", 1)]
+        if rec["dir"] != "o":
+            fields.append((k, "pad", n))
+    total = sum(x[2] for x in fields)
+    regs = [{"i": 0, "o": 0, "oe": 0} for _ in recs]
+    if nir and cd is not None:
+        e.set_signal(cd.clk, 0)
+        e.set_signal(cd.rst, 0)
+    for v in range(1 << total):
+        val, off = [dict(o=0, oe=0, pad=0) for _ in recs], 0
+        for k, mem, n in fields:
+            val[k][mem] = (v >> off) & ((1 << n) - 1)
+            off += n
+        for k, rec in enumerate(recs):
+            if rec["dir"] != "i":
+                if nir:
+                    e.set_signal(rec["o"], val[k]["o"])
+                    e.set_signal(rec["oe"], val[k]["oe"])
+                else:
+                    e.set_top(f"\\s{rec['x']}_o", val[k]["o"])
+                    e.set_top(f"\\s{rec['x']}_oe", val[k]["oe"])
+            if rec["dir"] != "o":
+                for r in range(rec["e"] - rec["a"]):
+                    j = rec["a"] + r
+                    if nir:
+                        e.set_pad(pidx[id(iop[true_half])], j, _bit(val[k]["pad"], r))
+                    else:
+                        e.ext[e.find(((), "\\" + iop[true_half].name, j))] = _bit(val[k]["pad"], r)
+        memo = {}
+        drv = e.drivers(memo) if nir else None
+        nxt = []
+        for k, rec in enumerate(recs):
+            o_eff, oe_eff = (regs[k]["o"], regs[k]["oe"]) if ff else (val[k]["o"], val[k]["oe"])
+            exp_i = 0
+            for r in range(rec["e"] - rec["a"]):
+                j = rec["a"] + r
+                inv = (mask >> j) & 1
+                for h, neg in ((("io", 0),) if kind == "se" else (("p", 0), ("n", 1))):
+                    d = drv.get((pidx.get(id(iop[h])), j), []) if nir else e.pad_drivers("\\" + iop[h].name, j, memo)
+                    expd = [((_bit(o_eff, r) ^ inv) ^ neg, oe_eff)] if rec["dir"] != "i" else []
+                    if d != expd:
+                        return (f"drive_{h}", f"inputs {val}: port {iop[h].name} bit {j} is driven by (value, enable) {d}, want {expd}")
+                port_in = (_bit(o_eff, r) ^ inv) if (rec["dir"] == "io" and oe_eff) else _bit(val[k]["pad"], r)
+                exp_i |= (port_in ^ inv) << r
+            if rec["dir"] != "o":
+                got_i = e.value(e.sig_nets(rec["i"]), memo) if nir else e.top_value(f"\\s{rec['x']}_i", memo)
+                want_i = regs[k]["i"] if ff else exp_i
+                if got_i != want_i:
+                    return ("i", f"inputs {val}: buffer on [{rec['a']}:{rec['e']}] i = {got_i:b}, want {want_i:b}")
+            nxt.append({"i": exp_i, "o": val[k]["o"], "oe": val[k]["oe"]})
+        if ff:
+            e.tick(cd.clk) if nir else e.tick("\\clk")
+            regs = nxt
+    _inc(out, "dirs_valuations", 1 << total)
+    out["cov"]["evaluations"] += 1 << total
+    return None
+
+
+def w_port_dirs(task):
+    kind, w, quick = task
+    warnings.simplefilter("ignore")
+    out = _new_out()
+    mask = 0b0110 & ((1 << w) - 1)
+    for x, parts in enumerate(dir_designs(w)):
+        for cls in (("Buffer", "FFBuffer") if (not quick or x % 4 == 0) else ("Buffer",)):
+            dirs_case({"leg": "dirs", "kind": kind, "w": w, "mask": mask, "parts": parts, "cls": cls}, out)
+    return out
+
+
 def _guarded(fn, prefix):
     """anything the legs do to a legal design must work: an exception escaping from amaranth is a finding,
     not a harness error (the exception class is part of the signature)"""
@@ -953,7 +1160,11 @@ def _guarded(fn, prefix):
             inside = [f for f in tb if "/amaranth/" in f.filename]
             if not inside:
                 raise               # a bug of the check itself stays a harness error
-            ts = term_str(case["term"], case["bases"])
+            if "term" not in case:
+                ts = "+".join(f"[{a}:{e}]={d}" for a, e, d in case["parts"]) + f":w{case['w']}"
+                case = dict(case, bufdir="per-slice")
+            else:
+                ts = term_str(case["term"], case["bases"])
             _viol(out, f"{prefix}:exception:{type(e).__name__}:{case.get('cls', 'Buffer')}:{case['bufdir']}:{case.get('kind', 'sim')}:{ts}",
                   f"{case.get('cls', 'Buffer')}({case['bufdir']}) on {case.get('kind', 'sim')} {ts}: unexpected {type(e).__name__}: {e} "
                   f"(at {inside[-1].filename.split('/amaranth/')[-1]}:{inside[-1].lineno})", case)
@@ -962,10 +1173,11 @@ def _guarded(fn, prefix):
 
 sim_case = _guarded(_sim_case, "simbuf")
 net_case = _guarded(_net_case, "net")
+dirs_case = _guarded(_dirs_case, "net:multi")
 
 
 # =============================================================================================== driver
-WORKERS = {"A": w_algebra, "Amix": w_algebra_mixed, "B": w_sim, "C": w_ff, "D": w_net, "D2": w_two_buffers}
+WORKERS = {"A": w_algebra, "Amix": w_algebra_mixed, "B": w_sim, "C": w_ff, "D": w_net, "D2": w_two_buffers, "D3": w_port_dirs}
 
 
 def _dispatch(t):
@@ -1000,6 +1212,9 @@ def run(rep):
     for kind in ("se", "diff"):
         for w in rep.pick((1, 2, 3), (1, 2, 3, 4)):
             tasks.append(("D2", (kind, w)))
+    for kind in ("se", "diff"):
+        for w in (2, 3, 4):
+            tasks.append(("D3", (kind, w, rep.quick)))
     tasks = rotate(tasks, rep.seed)
     flags = set()
     for part in pmap(_dispatch, tasks, rep.procs):
@@ -1031,7 +1246,10 @@ def run(rep):
                "port expressions (incl. every concatenation, in both orders, of contiguous slices of two different I/O ports of width 2..3, "
                "result width<=4): fine netlist and RTLIL text evaluated for every valuation; RTLIL that cannot be parsed/resolved "
                "(unknown wire, slice past the end of a wire, width mismatch, double driver) is a violation; exactly one buffer cell per port bit, "
-               "double use -> DriverConflict. non-trivial = derived (non-base) non-empty expression / simulated or converted case with a "
+               "double use -> DriverConflict. D3: real ports of width 2..4 partitioned into 1..3 contiguous slices, every assignment of "
+               "{unused, i, o, io} Buffers (FFBuffers for every 4th design in quick) to the slices: the direction declared for the top-level port "
+               "in the netlist and in the RTLIL text is the join of the using buffers' directions (all i -> input, all o -> output, otherwise inout; "
+               "complement half: output iff some o/io buffer), one cell per bit, and every valuation through netlist and RTLIL. non-trivial = derived (non-base) non-empty expression / simulated or converted case with a "
                "non-zero inversion mask / reachable FFBuffer product state / overlapping two-buffer pair")
     rep.setcov("bounds", {
         "base_ports": "width 0..3, all masks, directions i/o/io (45 per port class)",
@@ -1057,6 +1275,8 @@ def run(rep):
             "net_double_use_designs": "expressions using a port bit twice", "net_netlists": "netlists built",
             "net_rtlil_texts": "RTLIL texts interpreted",
             "net_rtlil_two_port_continuing_index_concats": "RTLIL of a[x:y]+b[y:z] over two different I/O ports", "net_illegal_pairs": "illegal pairs on real ports",
+            "dirs_mixed_i_o_designs": "one real port buffered as input on one slice and output on another",
+            "dirs_rtlil_texts": "multi-buffer RTLIL texts", "dirs_valuations": "multi-buffer valuations",
             "two_buffers_conflict": "overlapping two-buffer designs", "two_buffers_disjoint": "disjoint two-buffer designs",
             "ff_states": "FFBuffer product states", "ff_traces_validated": "BFS traces replayed from reset"}
     # a run that already reports violations is not a pass; guards whose counters sit behind a failing step
@@ -1082,6 +1302,8 @@ def replay(payload):
         sim_case(payload, out)
     elif leg == "net":
         net_case(payload, out)
+    elif leg == "dirs":
+        dirs_case(payload, out)
     elif leg == "ffzero":
         ff_zero_width(out)
         out["violations"] = [v for v in out["violations"] if v["payload"] == payload]
